@@ -125,11 +125,19 @@ class SCQubitsCompiler(GateCompiler):
         information for this gate.
         """
         targets = gate.targets
+        area = gate.arg_value / 2.0 / np.pi
+        maximum = self.params[param_label][targets[0]]
+        # A rotation by less than a quarter turn lowers the amplitude
+        # instead of shortening the pulse: very short pulses have large
+        # derivative (DRAG) terms and sample steps that the cubic spline
+        # of the concatenated pulses cannot resolve next to longer pulses.
+        if 0 < abs(area) < 0.25:
+            maximum = maximum * abs(area) / 0.25
         coeff, tlist = self.generate_pulse_shape(
             args["shape"],
             args["num_samples"],
-            maximum=self.params[param_label][targets[0]],
-            area=gate.arg_value / 2.0 / np.pi,
+            maximum=maximum,
+            area=area,
         )
         f = 2 * np.pi * self.params["wq"][targets[0]]
         if args["DRAG"]:
